@@ -97,6 +97,14 @@ func (en *evalEnv) lookupIdent(name string) (ev, bool) {
 		return v, true
 	}
 	e := en.e
+	// loop phi by source name
+	if en.phis != nil {
+		for phi, v := range en.phis {
+			if phi.Comment == name {
+				return ev{v, phi.Type()}, true
+			}
+		}
+	}
 	for _, p := range en.fn.Params {
 		if p.Name() == name {
 			return ev{e.val(en.fr, p), p.Type()}, true
@@ -107,14 +115,6 @@ func (en *evalEnv) lookupIdent(name string) (ev, bool) {
 			// captured variable: pointer to cell
 			pt := p.Type().(*types.Pointer).Elem()
 			return ev{e.load(en.fr, en.st, e.val(en.fr, p), pt), pt}, true
-		}
-	}
-	// loop phi by source name
-	if en.phis != nil {
-		for phi, v := range en.phis {
-			if phi.Comment == name {
-				return ev{v, phi.Type()}, true
-			}
 		}
 	}
 	// a local with a unique SSA value (needs debug refs)
@@ -507,14 +507,11 @@ func (en *evalEnv) call(x *ECall) ev {
 		// is(x, T): dynamic type of interface value x is T
 		a := arg(0)
 		tn := typeExprName(x.Args[1])
-		if u, ok := x.Args[1].(*EUnary); ok && u.Op == "*" {
-			tn = "*" + typeExprName(u.X)
-		}
-		if tn == "" {
-			en.fail("is(x, T): bad type")
-		}
-		if c, ok := x.Args[1].(*ECall); ok && c.Fun == "ptr" {
+		if c, ok := x.Args[1].(*ECall); ok && c.Fun == "ptr" && len(c.Args) == 1 {
 			tn = "*" + typeExprName(c.Args[0])
+		}
+		if tn == "" || tn == "*" {
+			en.fail("is(x, T): bad type")
 		}
 		t := en.typeByName(tn)
 		return ev{Eq(App(SInt, "o-tag", a.v.(*Term)), IntLit(int64(e.tag(t)))), nil}
